@@ -13,6 +13,7 @@ pub fn cfg(tier: &str) -> FaultCfg {
         cont_depth: if tier == "quick" { 1 } else { 2 },
         double_fault: tier != "quick",
         check_secret: false,
+        thin_over: 0,
     }
 }
 
